@@ -299,7 +299,10 @@ fn capture_site_cached() -> String {
 /// Returns `None` for threads the simulator does not control (pass-through), otherwise the model's verdict
 /// (`true` = granted / done; `false` only for failed try-operations).
 pub fn point(lock: &AtomicU64, op: Op) -> Option<bool> {
-    let (me, shp) = ME.with(|m| m.get())?;
+    let Some((me, shp)) = ME.with(|m| m.get()) else {
+        crate::stall::pass_through(lock, op.is_blocking_acquire(), op.is_acquire());
+        return None;
+    };
     let sh = unsafe { &*shp };
     let id = lock_id(lock);
     let site = if op.is_acquire() {
